@@ -206,7 +206,7 @@ func runC18(c *an.Ctx) {
 				return false
 			}
 			k, isK := b.Y.(*ssa.Const)
-			return isK && k.Value != nil && k.Value.String() == "2097152" && an.AccessPath(b.X) == "x"
+			return isK && k.Value != nil && k.Value.String() == "2097152" && an.AccessPath(b.X) == bx.Params[1].Name()
 		}}
 		v := an.Guarded(c.P, bx, []*an.Guard{g}, func(in ssa.Instruction) bool { _, ok := in.(*ssa.MakeSlice); return ok }, false)
 		c.Check(v.Holds && v.GuardSites == 1 && v.ActionSites >= 1, "alloc|byteXReader|bounded", "the io.Reader decoder allocates a length-prefixed buffer up front only below the 2 MiB bound (larger inputs are read incrementally)", c.P.Rel(bx.Pos()), v.Witness)
